@@ -106,3 +106,69 @@ Corollary zip_items_nodup t cols start len : NoDup (map fst (zip_items cols star
 Proof.
   rewrite zip_items_rows, map_map. cbn [fst]. rewrite map_id. apply seq_NoDup.
 Qed.
+
+(** * Zip with RepeatNone: when every producer has the archetype's length, any splitting hands out
+      exactly one row per index, with None in the RepeatNone positions *)
+Lemma min_len_all cols len : (forall c, In c cols -> pcol_len c = len) -> min_len cols len = len.
+Proof.
+  induction cols as [|c t IH]; intros H; cbn [min_len fold_right]; [reflexivity|].
+  fold (min_len t len). rewrite IH by (intros x Hx; apply H; right; exact Hx).
+  rewrite (H c (or_introl eq_refl)). apply Nat.min_id.
+Qed.
+
+Lemma pcol_split_len i c : i <= pcol_len c ->
+  pcol_len (fst (pcol_split i c)) = i /\ pcol_len (snd (pcol_split i c)) = pcol_len c - i.
+Proof.
+  destruct c as [l|n]; cbn [pcol_split pcol_len fst snd]; intros H.
+  - rewrite firstn_length, skipn_length. lia.
+  - lia.
+Qed.
+
+Lemma nth_firstn_lt A : forall (l : list A) n r, r < n -> nth_error (firstn n l) r = nth_error l r.
+Proof. induction l as [|x t IH]; intros [|n] [|r] H; cbn; try reflexivity; try lia. apply IH. lia. Qed.
+
+Lemma nth_skipn_add A : forall (l : list A) n r, nth_error (skipn n l) r = nth_error l (n + r).
+Proof.
+  induction l as [|x t IH]; intros [|n] r; cbn; try reflexivity.
+  - destruct r; reflexivity.
+  - apply IH.
+Qed.
+
+Lemma pcol_item_split i c r : i <= pcol_len c ->
+  (r < i -> pcol_item (fst (pcol_split i c)) r = pcol_item c r) /\
+  pcol_item (snd (pcol_split i c)) r = pcol_item c (i + r).
+Proof.
+  destruct c as [l|n]; cbn [pcol_split pcol_item pcol_len fst snd]; intros H.
+  - split; [intros Hr; apply nth_firstn_lt; exact Hr|apply nth_skipn_add].
+  - split; reflexivity.
+Qed.
+
+Definition whole_rows (cols : list pcol) (len : nat) : list (list (option val)) :=
+  map (fun r => map (fun c => pcol_item c r) cols) (seq 0 len).
+
+Theorem pzip_items_rows : forall t cols len, (forall c, In c cols -> pcol_len c = len) ->
+  pzip_items cols len t = whole_rows cols len.
+Proof.
+  induction t as [|i a IHa b IHb]; intros cols len H; cbn [pzip_items].
+  - unfold leaf_rows, whole_rows. rewrite (min_len_all cols len H). reflexivity.
+  - set (i' := Nat.min i len).
+    assert (Hi : i' <= len) by (subst i'; lia).
+    rewrite IHa, IHb.
+    + unfold whole_rows.
+      replace (seq 0 len) with (seq 0 (i' + (len - i'))) by (f_equal; lia).
+      rewrite seq_app, map_app. f_equal.
+      * apply map_ext_in. intros r Hr. apply in_seq in Hr. rewrite map_map. apply map_ext_in. intros c Hc.
+        apply (pcol_item_split i' c r); [rewrite (H c Hc); exact Hi|lia].
+      * assert (Hseq : forall k s0, seq (s0 + i') k = map (fun r => i' + r) (seq s0 k)).
+        { induction k as [|k IHk]; intros s0; cbn [seq map]; [reflexivity|].
+          f_equal; [lia|]. rewrite <- IHk. reflexivity. }
+        rewrite (Hseq (len - i') 0). rewrite map_map. apply map_ext_in. intros r Hr. rewrite map_map.
+        apply map_ext_in. intros c Hc.
+        apply (pcol_item_split i' c r). rewrite (H c Hc). exact Hi.
+    + intros c Hc. apply in_map_iff in Hc as (c0 & <- & Hc0).
+      destruct (pcol_split_len i' c0 ltac:(rewrite (H c0 Hc0); exact Hi)) as [L1 L2].
+      first [exact L1 | rewrite L2, (H c0 Hc0); reflexivity].
+    + intros c Hc. apply in_map_iff in Hc as (c0 & <- & Hc0).
+      destruct (pcol_split_len i' c0 ltac:(rewrite (H c0 Hc0); exact Hi)) as [L1 L2].
+      first [exact L1 | rewrite L2, (H c0 Hc0); reflexivity].
+Qed.
